@@ -333,31 +333,44 @@ def r07c(model, ctx):
         unparse(loops[0].body[0].test) == "empty_checker.is_empty(module_idx)" and isinstance(loops[0].body[0].body[0], ast.Continue)
     ctx.check(ok, R, "convert_fragment:skip-empty-definition", "empty modules are not defined",
               "convert_fragment must skip the definition of modules the EmptyModuleChecker reports empty", f"{RTLIL}:{f.lineno}")
-    f2 = model.func(f"{RTLIL}::ModuleEmitter.emit_submodules")
-    ifs = [s for s in ast.walk(f2) if isinstance(s, ast.If) and unparse(s.test) == "not self.empty_checker.is_empty(submodule_idx)"]
-    ok = len(ifs) == 1 and any(isinstance(n, ast.Call) and unparse(n.func) == "self.builder.cell" for n in ast.walk(ifs[0])) and \
-        not any(isinstance(n, ast.Call) and unparse(n.func) == "self.builder.cell" for s in f2.body for n in ast.walk(s)
-                if not any(n is x for x in ast.walk(ifs[0])))
+    from ..engine.astutil import parent_map, dominating_conditions
+    from ..engine.bitalg import conjuncts
+    f2 = model.func_view(f"{RTLIL}::ModuleEmitter.emit_submodules")
+    pm2 = parent_map(f2)
+    cells = [n for n in ast.walk(f2) if isinstance(n, ast.Expr) and isinstance(n.value, ast.Call) and
+             unparse(n.value.func) == "self.builder.cell"]
+    need(len(cells) >= 1, "emit_submodules: the submodule cell emission was not found")
+    want = conjuncts([(ast.parse("self.empty_checker.is_empty(submodule_idx)", mode="eval").body, False)])
+    ok = all(conjuncts(dominating_conditions(pm2, c, f2)) == want for c in cells)
     ctx.check(ok, R, "emit_submodules:skip-empty-cell", "cells are emitted only for non-empty submodules (same predicate)",
               "a submodule cell must be emitted exactly when the submodule's definition is (same is_empty predicate), "
               "otherwise the cell references a module that does not exist", f"{RTLIL}:{f2.lineno}")
-    f3 = model.func(f"{RTLIL}::EmptyModuleChecker.check")
+    f3 = model.func_view(f"{RTLIL}::EmptyModuleChecker.check")
     t = unparse(f3)
-    ok = "is_empty = not self.netlist.modules[module_idx].cells" in t and "is_empty &= self.check(submodule)" in t
+    M = "self.netlist.modules[module_idx]"
+    # two idioms: an accumulator and-ed with every submodule's verdict, or `not cells and all([...])`
+    if "&=" in t:
+        ok = f"is_empty = not {M}.cells" in t and "is_empty &= self.check(submodule)" in t and \
+            f"for submodule in {M}.submodules:" in t
+    elif "all(" in t:
+        ok = any(pmatch(f"not {M}.cells and all([self.check(submodule) for submodule in {M}.submodules])", n) is not None or
+                 pmatch(f"all([self.check(submodule) for submodule in {M}.submodules]) and (not {M}.cells)", n) is not None
+                 for n in ast.walk(f3))
+    else:
+        raise AnalysisError("EmptyModuleChecker.check: the emptiness accumulation idiom was not recognised")
     ctx.check(ok, R, "EmptyModuleChecker.check", "empty iff no cells and all submodules empty",
               "a module is empty iff it has no cells and all of its submodules are empty", f"{RTLIL}:{f3.lineno}")
 
 
 def r07d(model, ctx):
     R = "R-07d"
+    from ..engine.astutil import dict_contributions
     f = model.func(f"{RTLIL}::ModuleEmitter.emit_submodules")
-    loops = {unparse(s.iter): s for s in ast.walk(f) if isinstance(s, ast.For)}
-    ok = "submodule.ports.items()" in loops and "submodule.io_ports.items()" in loops
-    if ok:
-        a = loops["submodule.ports.items()"].body
-        b = loops["submodule.io_ports.items()"].body
-        ok = len(a) == 1 and unparse(a[0]) == "ports[name] = self.sigspec(value)" and \
-            len(b) == 1 and unparse(b[0]) == "ports[name] = self.io_sigspec(value)"
+    contrib = dict_contributions(f, "ports")
+    need(contrib, "emit_submodules: the `ports` dict of the submodule cell was not found")
+    got = {(it, k, v) for it, _tgt, k, v in contrib}
+    ok = got == {("submodule.ports.items()", "name", "self.sigspec(value)"), ("submodule.io_ports.items()", "name", "self.io_sigspec(value)")} \
+        and all(tgt in ("(name, (value, _flow))", "name, (value, _flow)", "(name, (value, _dir))", "name, (value, _dir)") for _i, tgt, _k, _v in contrib)
     ctx.check(ok, R, "emit_submodules:ports", "one connection per declared port and io port, same value",
               "the submodule cell must connect exactly submodule.ports and submodule.io_ports (the dicts the submodule's "
               "port wires are declared from), each with the port's own value", f"{RTLIL}:{f.lineno}")
